@@ -97,3 +97,77 @@ def loops_over(fnode, pred):
         if isinstance(n, (ast.For, ast.AsyncFor)) and pred(n.iter):
             out.append(n)
     return out
+
+
+def iter_base(e):
+    """Strip list()/tuple()/iter()/reversed()/sorted() wrappers and .copy() from an iterable expression."""
+    while True:
+        if isinstance(e, ast.Call) and call_name(e) in ("list", "tuple", "iter", "reversed", "sorted", "set", "frozenset") and e.args:
+            e = e.args[0]
+            continue
+        if isinstance(e, ast.Call) and isinstance(e.func, ast.Attribute) and e.func.attr == "copy" and not e.args:
+            e = e.func.value
+            continue
+        if isinstance(e, ast.Starred):
+            e = e.value
+            continue
+        return e
+
+
+def holds_at(ctx, fi, node, pred):
+    """Does an atom satisfying pred(atom) hold whenever `node` (an expression or statement of fi) is evaluated?
+    Sources: earlier operands of an enclosing `and`, enclosing if / conditional-expression tests (with polarity),
+    comprehension conditions, and dominating early exits (`if not X: return/raise`)."""
+    from ..model import parent_map
+    from ..norm import atoms
+
+    pm = ctx.cache.setdefault(("pm", fi.key), parent_map(fi.node))
+    cur = node
+    while cur in pm:
+        p = pm[cur]
+        if isinstance(p, ast.BoolOp) and isinstance(p.op, ast.And):
+            idx = next((i for i, v in enumerate(p.values) if v is cur), None)
+            if idx:
+                for v in p.values[:idx]:
+                    if any(pred(a) for a in atoms(v)):
+                        return True
+        if isinstance(p, ast.BoolOp) and isinstance(p.op, ast.Or):
+            idx = next((i for i, v in enumerate(p.values) if v is cur), None)
+            if idx:
+                for v in p.values[:idx]:
+                    if any(pred(a) for a in atoms(v, True)):
+                        return True
+        if isinstance(p, ast.If) and cur is not p.test:
+            in_body = any(cur is s for s in p.body)
+            if any(pred(a) for a in atoms(p.test, negate=not in_body)):
+                return True
+        if isinstance(p, ast.IfExp) and cur is not p.test:
+            if any(pred(a) for a in atoms(p.test, negate=cur is p.orelse)):
+                return True
+        if isinstance(p, ast.comprehension) and cur is not p.iter:
+            for c in p.ifs:
+                if c is cur:
+                    break
+                if any(pred(a) for a in atoms(c)):
+                    return True
+        if isinstance(p, (ast.ListComp, ast.SetComp, ast.GeneratorExp, ast.DictComp)) and cur in (getattr(p, "elt", None), getattr(p, "key", None), getattr(p, "value", None)):
+            for g in p.generators:
+                for c in g.ifs:
+                    if any(pred(a) for a in atoms(c)):
+                        return True
+        cur = p
+    # dominating early exits
+    st = node
+    while st in pm and not isinstance(st, ast.stmt):
+        st = pm[st]
+    cfg = cfg_of(ctx, fi)
+    n = cfg.node_of(st)
+    if n is None:
+        return False
+    for g in all_stmts(fi.node):
+        if isinstance(g, ast.If) and g is not st and g.body and isinstance(g.body[-1], (ast.Return, ast.Raise, ast.Continue, ast.Break)) and not g.orelse:
+            if any(pred(a) for a in atoms(g.test, negate=True)):
+                gn = cfg.node_of(g)
+                if gn is not None and cfg.dominated_by(n, [gn]) and not any(x is st for b in g.body for x in ast.walk(b)):
+                    return True
+    return False
